@@ -152,6 +152,43 @@ static const char hand_ts2[] =
     "200 1.7 0.4 50 0.3\n"
     "[End]\n";
 
+/* the same with the keyword spelling the pinned loader knows and in Hz, so
+ * that the deeper version 2 paths are reached whatever the state of the
+ * keyword-name / frequency-unit defects (C08) */
+static const char hand_ts2_alt[] =
+    "! hand-written Touchstone 2 seed\n"
+    "[Version] 2.0\n"
+    "# Hz S RI R 50\n"
+    "[Number of Ports] 2\n"
+    "[Two-Port Order] 21_12\n"
+    "[Number of Frequencies] 2\n"
+    "[Number of Noise Frequencies] 2\n"
+    "[Reference] 50\n"
+    "  75\n"
+    "[Matrix Format] Full\n"
+    "[Network Data]\n"
+    "100 0.1 0.2 0.3 0.4 0.5 0.6 0.7 0.8 ! first\n"
+    "200 0.11 0.21 0.31 0.41 0.51 0.61 0.71 0.81\n"
+    "[Noise Data]\n"
+    "100 1.5 0.3 45 0.2\n"
+    "200 1.7 0.4 50 0.3\n"
+    "[End]\n";
+
+static const char hand_ts2_upper_hz[] =
+    "[Version] 2.0\n"
+    "# Hz Z RI R 50\n"
+    "[Number of Ports] 3\n"
+    "[Number of Frequencies] 2\n"
+    "[Matrix Format] Upper\n"
+    "[Network Data]\n"
+    "1e9 1 10 2 20 3 30\n"
+    "  4 40 5 50\n"
+    "  6 60\n"
+    "2e9 11 1 21 2 31 3\n"
+    "  41 4 51 5\n"
+    "  61 6\n"
+    "[End]\n";
+
 static const char hand_ts2_lower[] =
     "[Version] 2.0\n"
     "# GHz Y MA R 50\n"
@@ -367,6 +404,8 @@ static void make_seeds(void)
 	    ".ts", 55);
     add_seed(K_TS, hand_ts2, sizeof(hand_ts2) - 1);
     add_seed(K_TS, hand_ts2_lower, sizeof(hand_ts2_lower) - 1);
+    add_seed(K_TS, hand_ts2_alt, sizeof(hand_ts2_alt) - 1);
+    add_seed(K_TS, hand_ts2_upper_hz, sizeof(hand_ts2_upper_hz) - 1);
     seed_data(K_NPD, VPT_ZIN, 1, 2, 2, NULL, 0, 0, ".npd", 60);
     seed_data(K_NPD, VPT_S, 2, 2, 2, "Sri", 0, 0, ".npd", 61);
     seed_data(K_NPD, VPT_S, 2, 2, 2, "Sri,Zma,IL,RL,VSWR,Zinri,PRC", 0, 2,
@@ -521,6 +560,24 @@ int main(int argc, char **argv)
 	    run_input(cid, kind, M_TRUNCATE, seedno, &in);
 	    free(in.p);
 	}
+	return 0;
+    }
+    if (argc >= 4 && strcmp(argv[1], "file") == 0) {
+	/* file KIND PATH: run the bytes of PATH through the loader of KIND */
+	buf_t in;
+	int kind = -1;
+
+	for (int k = 0; k < NKINDS; ++k) {
+	    if (strcmp(argv[2], kind_name[k]) == 0)
+		kind = k;
+	}
+	in.p = cf_read_file(argv[3], &in.n);
+	if (kind < 0 || in.p == NULL) {
+	    fprintf(stderr, "file: bad kind or unreadable file\n");
+	    return 3;
+	}
+	cf_leak_force = 1;
+	run_input("file:0:0", kind, M_NONE, 0, &in);
 	return 0;
     }
     if (argc >= 4 && strcmp(argv[1], "show") == 0) {
